@@ -19,7 +19,8 @@
    fconf / args_denote_fd / smsg_fd / send_spec (sending). *)
 From Tx Require Import Lib.Base Model.PyVal Model.Marshal Model.Message Model.Framing Model.FdFraming
   Spec.WireSpec Spec.Readback Spec.WireTyped Spec.Conforms Spec.MsgSpec Spec.FramingSpec Spec.FdSpec
-  Proofs.MarshalProofs Proofs.FdProofs Proofs.FdSendProofs Proofs.FdExamples.
+  Proofs.MarshalProofs Proofs.FramingProofs Proofs.FdProofs Proofs.FdStartProofs Proofs.FdSendProofs
+  Proofs.FdExamples.
 Local Open Scope N_scope.
 
 (* ---- receiving ------------------------------------------------------------------------- *)
@@ -45,6 +46,46 @@ Theorem C20_attribution :
     exists ps, run_fd astep maxl false fuel client a ins = (map Deliver ps, q, Some rest) /\
                map view ps = seen.
 Proof. exact @attribution. Qed.
+
+(* The same from the START of the connection (run_start: state right after
+   connectionMade, either side, any authenticator).  The peer sends the handshake
+   hs = (NUL,) lines the authenticator accepts at the last one, then the messages;
+   a descriptor may arrive ANYWHERE after the start - before, or in the same read
+   as, the line that completes authentication (a peer pipelining its first
+   message behind BEGIN) - still in sending order and each no later than the read
+   carrying the final byte of its message (stream_order_hs); reads are cut anywhere,
+   inside the handshake too.  Then: the queue is carried untouched through the
+   line phase and across the switch to binary framing; the callbacks are the
+   handshake events hl (exactly those of C04's stream semantics), then exactly the
+   messages completed so far, each with its own descriptors; the queue holds
+   exactly the arrived descriptors of the messages not yet delivered.  (Server
+   side: the very first read is not empty, as in C04.) *)
+Theorem C20_attribution_from_start :
+  forall (A : Type) (astep : A -> bytes -> A * ares) (maxl : N) (fuel : nat) (client : bool) (a : A)
+         (lines : list bytes) (msgs : list sent),
+    Forall (good_line maxl) lines -> auth_accepts astep a lines = true ->
+    Forall sent_ok msgs ->
+    Forall (fun x => (msg_depth (sn_msg x) <= fuel)%nat) msgs ->
+    forall ins : list input,
+    stream_order_hs (hs_bytes client lines) msgs ins ->
+    client = true \/ first_read_nonempty (reads ins) ->
+    exists hl ps r,
+      run_start astep maxl false fuel client a ins
+        = (map Other hl ++ map Deliver ps, snd (expected_hs (hs_bytes client lines) msgs ins), Some r) /\
+      map view ps = fst (expected_hs (hs_bytes client lines) msgs ins) /\
+      Forall nomsg hl /\
+      fst (sem astep maxl client a (bytes_of ins))
+        = hl ++ map Msg (map wire (firstn (complete msgs (length (bytes_of ins) - length (hs_bytes client lines))) msgs)) /\
+      ((length (hs_bytes client lines) <= length (bytes_of ins))%nat ->
+         hl = map Line lines ++ [AuthOk] /\
+         bytes_of ins = hs_bytes client lines
+                        ++ wire_all (firstn (complete msgs (length (bytes_of ins) - length (hs_bytes client lines))) msgs)
+                        ++ r).
+Proof. exact @attribution_start. Qed.
+
+Theorem C20_stream_order_hs_checker :
+  forall hs msgs ins, stream_order_hs_b hs msgs ins = true -> stream_order_hs hs msgs ins.
+Proof. exact stream_order_hs_b_sound. Qed.
 
 (* One message, ANY queue behind its own descriptors ("even when descriptors of
    later messages are already queued"): rawDBusMessageReceived delivers it as
@@ -207,3 +248,22 @@ Example C20_send_instance :
   sent_ok (mkSent s ex_send_fds) /\
   snd (seen_of (mkSent s ex_send_fds)) = Some [PList [PInt 10; PStr [120]]; PList [PInt 11; PInt 12]].
 Proof. exact ex_send_ok. Qed.
+
+(* server side: NUL, "AUTH X", "GO" (accepted), then B and D.  Descriptors 10 and
+   11 arrive while the handshake is incomplete, 12 just before the read carrying
+   "GO\r\n" together with the first 30 bytes of B.  The hypotheses of
+   C20_attribution_from_start hold; after that read the connection is
+   authenticated with 10 11 12 still queued; at the end B and D have their own. *)
+Example C20_start_instance :
+  Forall (good_line 16384) [AUTHX; GO] /\ auth_accepts (astep_rules go_rules) tt [AUTHX; GO] = true /\
+  Forall sent_ok [ex_B; ex_D] /\ Forall (fun x => (msg_depth (sn_msg x) <= 8)%nat) [ex_B; ex_D] /\
+  stream_order_hs ex_hs [ex_B; ex_D] ex_ins2 /\ first_read_nonempty (reads ex_ins2) /\
+  run_start (astep_rules go_rules) 16384 false 8 false tt (firstn 5 ex_ins2)
+    = ([Other (Line AUTHX); Other (Line GO); Other AuthOk], [PInt 10; PInt 11; PInt 12],
+       Some (firstn 30 (wire ex_B))) /\
+  (exists p1 p2,
+     run_start (astep_rules go_rules) 16384 false 8 false tt ex_ins2
+       = ([Other (Line AUTHX); Other (Line GO); Other AuthOk; Deliver p1; Deliver p2], [], Some []) /\
+     snd (view p1) = Some [PList [PInt 11; PStr [120]]; PList [PInt 10; PInt 12]] /\
+     snd (view p2) = Some [PInt 13]).
+Proof. exact ex_start. Qed.
